@@ -24,7 +24,7 @@ func (propC08) Rule() string {
 }
 func (propC08) Runs(tier string) int {
 	if tier == "thorough" {
-		return 400000
+		return 3000000
 	}
 	return 40000
 }
